@@ -20,6 +20,15 @@ def sepT : Nat → Str
   | 0 => [',', ' ']
   | j + 1 => rep ']' (j + 1) ++ ',' :: rep '[' (j + 1)
 
+/-- the tight separators with `z` after the element-level comma (`z = " "` for most front ends, `z = ""` for
+`array_string!`, whose `"\", \"" → "\",\""` step removes the blank) -/
+def sepTz (z : Str) : Nat → Str
+  | 0 => ',' :: z
+  | j + 1 => rep ']' (j + 1) ++ ',' :: rep '[' (j + 1)
+
+theorem sepT_eq : sepT = sepTz [' '] := by
+  funext j; cases j <;> rfl
+
 /-- the text of a regular nesting without its leading `[`s and trailing `]`s -/
 def mid (sep : Nat → Str) : List Nat → List Str → Str
   | [], es => es.headD []
